@@ -31,7 +31,7 @@ REACH = [("yamlpath/yamlpath.py", "__eq__,__add__,append,pop", "__eq__/__add__/a
          ("yamlpath/path/searchkeywordterms.py", "parameters", "SearchKeywordTerms.parameters")]
 EXHAUSTIVE_NOTE = "all segment sequences of length <=2 over the reduced segment list (thorough tier)"
 SIZES = {"quick": dict(grid_stride=6, rnd=60000), "thorough": dict(grid_stride=1, rnd=1500000)}
-REQUIRED_COUNTERS = ["object_reuse_checked", "parse_checked", "canonical_checked", "eq_checked", "append_pop_checked"]
+REQUIRED_COUNTERS = ["separator_switch_checked", "object_reuse_checked", "parse_checked", "canonical_checked", "eq_checked", "append_pop_checked"]
 
 METHOD = {"=": "EQUALS", "^": "STARTS_WITH", "$": "ENDS_WITH", "%": "CONTAINS", ">": "GREATER_THAN",
           "<": "LESS_THAN", ">=": "GREATER_THAN_OR_EQUAL", "<=": "LESS_THAN_OR_EQUAL", "=~": "REGEX"}
@@ -129,7 +129,8 @@ def gen_key(rng):
 def gen_term(rng, op, depth=0):
     if op == "=~":
         for _ in range(20):
-            t = rng.choice(["a", "^a", "b$", "a.b", "x/y", "[0-9]+", "a|b", "^$", "(a)", "a b", "\\.", "x_y", "a#b"])
+            t = rng.choice(["a", "^a", "b$", "a.b", "x/y", "[0-9]+", "a|b", "^$", "(a)", "a b", "\\.", "x_y", "a#b", "x/y|z",
+                            "^/(usr|opt)/", "a/b|c#d", "/|#"])
             if depth and (" " in t or "(" in t or "[" in t):
                 continue        # inside a collector the outer parser is not regex-aware: not generated
             return t
@@ -287,6 +288,19 @@ def check_ast(ctx, rng, segs, do_eq=True):
                 if got2 != exp:
                     ctx.violation("canonical-other-notation-differs/%s" % first_diff_kind(exp, got2), {
                         "case": case, "summary": "%r -> other notation %r parses to %r" % (texts[sep], s2, got2)})
+            # a path that has been parsed and then shown in the other notation is still the same path: it equals a fresh
+            # parse of its text, and a copy of it has its segments
+            used = YAMLPath(texts[sep])
+            _ = (list(used.escaped), str(used))
+            used.separator = PathSeparators.FSLASH if sep == "." else PathSeparators.DOT
+            ctx.counters["separator_switch_checked"] = ctx.counters.get("separator_switch_checked", 0) + 1
+            cp = YAMLPath(used)
+            if canon(cp.escaped, cp.unescaped) != exp:
+                ctx.violation("copy-differs-after-separator-switch", {"case": case, "summary": "a copy of YAMLPath(%r) shown as %r has "
+                              "segments %r" % (texts[sep], str(used), canon(cp.escaped, cp.unescaped))})
+            elif not (used == YAMLPath(texts[sep])) or (used != YAMLPath(texts[sep])):
+                ctx.violation("eq-false-after-separator-switch", {"case": case, "summary": "YAMLPath(%r), shown as %r, != a fresh "
+                              "YAMLPath of the same text" % (texts[sep], str(used))})
         except YAMLPathException as e:
             ctx.violation("canonical-rejected", {"case": case, "summary": "%r: %s" % (texts[sep], str(e)[:150])})
         except Exception as e:
